@@ -190,15 +190,17 @@ theorem PhaseOk.enterB2 (cfg : Cfg) (t : Req) {a : Asm} (h : B2Inv a) : PhaseOk 
 
 /-- a valid non-final block carries a positive whole number of blocks: exactly one, or (BERT) one
 or more KiB -- never none (after the fix also for BERT) -/
-theorem validFor_more {b : BlockOpt} {n : Nat} (hm : b.more = true) (h : b.validFor n = true) :
+theorem okFor_more {b : BlockOpt} {n : Nat} (hm : b.more = true) (h : b.okFor n = true) :
     0 < n ∧ b.size ∣ n ∧ (b.szx ≠ 7 → n = b.size) := by
-  unfold BlockOpt.validFor at h
+  unfold BlockOpt.okFor BlockOpt.validFor at h
   by_cases h7 : b.szx = 7
-  · simp only [h7, ↓reduceIte, hm, Bool.and_eq_true, decide_eq_true_eq, beq_iff_eq] at h
+  · simp only [h7, ↓reduceIte, hm, Bool.and_eq_true, beq_iff_eq, Bool.true_and, Bool.not_eq_true',
+      beq_eq_false_iff_ne, ne_eq] at h
     have hs : b.size = 1024 := by rw [BlockOpt.size_unit, h7, unit_seven]
-    exact ⟨h.1, by rw [hs]; exact Nat.dvd_of_mod_eq_zero h.2, fun hc => absurd h7 hc⟩
-  · simp only [h7, ↓reduceIte, hm, beq_iff_eq] at h
-    exact ⟨by rw [h]; exact b.size_pos, by rw [h]; exact Nat.dvd_refl _, fun _ => h⟩
+    exact ⟨by omega, by rw [hs]; exact Nat.dvd_of_mod_eq_zero h.1, fun hc => absurd h7 hc⟩
+  · simp only [h7, ↓reduceIte, hm, Bool.and_eq_true, beq_iff_eq, Bool.true_and, Bool.not_eq_true',
+      beq_eq_false_iff_ne, ne_eq] at h
+    exact ⟨by rw [h.1]; exact b.size_pos, by rw [h.1]; exact Nat.dvd_refl _, fun _ => h.1⟩
 
 theorem PhaseOk.completeBlock2 (cfg : Cfg) (t : Req) (r : Resp) : PhaseOk cfg (completeBlock2 cfg t r) := by
   cases hb : r.block2 with
@@ -214,11 +216,11 @@ theorem PhaseOk.completeBlock2 (cfg : Cfg) (t : Req) (r : Resp) : PhaseOk cfg (c
     by_cases hm : b2.more = true
     · by_cases hn : b2.num ≠ 0
       · simp [hm, hn, PhaseOk]
-      · by_cases hv : b2.validFor r.payload.length = true
+      · by_cases hv : b2.okFor r.payload.length = true
         · simp only [hm, Bool.not_true, Bool.false_eq_true, ↓reduceIte, hn, hv]
           apply PhaseOk.enterB2
           simp only [B2Inv]
-          exact (validFor_more hm hv).2.1
+          exact (okFor_more hm hv).2.1
         · simp [hm, hn, hv, PhaseOk]
     · simp [hm, PhaseOk]
 
@@ -270,7 +272,7 @@ theorem PhaseOk.step {cfg : Cfg} {ph : Phase} (h : PhaseOk cfg ph) (r : Resp) :
       by_cases hc : r.code ≠ a.code
       · simp [hc, PhaseOk]
       rw [if_neg hc]
-      by_cases hv : b2.validFor r.payload.length = true
+      by_cases hv : b2.okFor r.payload.length = true
       · by_cases hs : b2.start ≠ a.payload.length
         · simp [hv, hs, PhaseOk]
         · by_cases he : r.etag ≠ a.etag
@@ -281,7 +283,7 @@ theorem PhaseOk.step {cfg : Cfg} {ph : Phase} (h : PhaseOk cfg ph) (r : Resp) :
               simp only [B2Inv, List.length_append]
               have hs' : b2.start = a.payload.length := by simpa using hs
               rw [← hs', BlockOpt.start]
-              exact Nat.dvd_add (Nat.dvd_mul_left _ _) (validFor_more hm hv).2.1
+              exact Nat.dvd_add (Nat.dvd_mul_left _ _) (okFor_more hm hv).2.1
             · simp [hv, hs, he, hm, PhaseOk]
       · simp [hv, PhaseOk]
 
